@@ -345,6 +345,7 @@ class WireView:
         data_done = set()
         handles = {}
         eos_out, eos_in, rst = set(), set(), set()
+        fed_rst = []
         # tasks parked by a poll that returned Pending: waker id -> (step, op); a task leaves the table when its waker
         # fires, when it is polled again, or when its handle is dropped
         KIND = {"poll_response": 0, "poll_pushed_response": 0, "poll_data": 1, "poll_trailers": 2, "poll_capacity": 3,
@@ -409,9 +410,20 @@ class WireView:
                     w = op["what"]
                     if w.get("t") in ("HEADERS", "DATA") and w.get("eos"):
                         eos_in.add(w.get("sid"))
-                    if w.get("t") == "RST_STREAM" and not (w.get("sid") in eos_out and w.get("sid") in eos_in):
-                        rst.add(w.get("sid"))       # a reset after the stream had completed changes nothing
+                    if w.get("t") == "RST_STREAM":
+                        fed_rst.append(w.get("sid"))   # judged when the endpoint next reads (see below)
+                    if w.get("t") == "PUSH_PROMISE" and w.get("promised"):
+                        eos_out.add(w["promised"])     # the client never sends on a pushed stream
+                if o in ("conn_poll", "poll_accept") and fed_rst:
+                    # the endpoint reads what was fed: a reset that reaches a stream which has completed meanwhile (its own
+                    # END_STREAM submitted before this read) changes nothing
+                    for sid_ in fed_rst:
+                        if not (sid_ in eos_out and sid_ in eos_in):
+                            rst.add(sid_)
+                    fed_rst = []
                 for f in st["out"]:
+                    if f["t"] == "PUSH_PROMISE" and f.get("promised"):
+                        eos_in.add(f["promised"])      # a pushed stream is closed on the peer's side from the start
                     if f["t"] in ("HEADERS", "DATA") and f.get("eos"):
                         eos_out.add(f["sid"])
                     if f["t"] == "RST_STREAM" and not (f["sid"] in eos_out and f["sid"] in eos_in):
